@@ -62,8 +62,20 @@ def run(ck):
     for key, fn in VALIDATORS + [(f'partial/{b}/is_utf8_domain.c', 'is_utf8_domain') for b in BACKENDS]:
         tu = all_tus[key]
         ck.analysed(units=[key], functions=[f'{key}:{fn}'])
-        for r in astutil.find(tu.body(fn), 'ReturnStmt'):
-            eng = cfgpaths.Engine(tu, fn); v = eng.render(r['inner'][0], cfgpaths.Path())
+        # returns of the validator itself and, transitively, of the static helpers of its unit whose result it returns
+        todo = [fn]; seen_fns = set(); rets = []
+        while todo:
+            g = todo.pop()
+            if g in seen_fns or g not in tu.functions: continue
+            seen_fns.add(g)
+            for r in astutil.find(tu.body(g), 'ReturnStmt'):
+                if not r.get('inner'): continue
+                c = astutil.strip(r['inner'][0])
+                if c.get('kind') == 'CallExpr' and astutil.callee_name(c) in tu.functions and tu.functions[astutil.callee_name(c)].get('storageClass') == 'static':
+                    todo.append(astutil.callee_name(c)); continue
+                rets.append((g, r))
+        for g, r in rets:
+            eng = cfgpaths.Engine(tu, g); v = eng.render(r['inner'][0], cfgpaths.Path())
             ok = v in ('0', 'EEAV_NO_ERROR', 'TLD_TYPE_SPECIAL', 'rc') or re.fullmatch(r'-EEAV_\w+', v) is not None or re.fullmatch(r"[\w@'#\[\]]+(->|\.)type", v) is not None \
                 or re.fullmatch(r'is_tld#\d+', v) is not None or re.fullmatch(r'\(iserr \? -rc : rc\)', v) is not None
             if ok and v.startswith('-EEAV_') and v[1:] not in codes: ok = False
